@@ -82,6 +82,10 @@ func (bucket *Bucket) _closeSqliteDB() {
 
 // Closes a bucket and deletes its directory and files (unless it's in-memory.)
 func (bucket *Bucket) CloseAndDelete(ctx context.Context) (err error) {
+	// Stop expiration before taking the bucket mutex: a running expiration holds the expiry
+	// manager's mutex while it takes the bucket mutex for each document it deletes, so waiting for
+	// it with the bucket mutex held would deadlock.
+	bucket.expManager.stop()
 	verifLock(bucket.mutex, "closedelete")
 	bucket.mutex.Lock()
 	defer bucket.mutex.Unlock()
